@@ -599,6 +599,9 @@ class Store:
             schemas_equal = np.array_equal(current_schema_value, new_schema)
         else:
             schemas_equal = (current_schema_value == new_schema)
+            if isinstance(schemas_equal, np.ndarray):
+                # (arrays with units compare element by element)
+                schemas_equal = bool(schemas_equal.all())
         if current_schema_value is not None and not schemas_equal:
             if schema_key == "units":
                 # Different Python interpreters (inc. from multiprocessing with
